@@ -71,7 +71,7 @@ def finish(o, start, nth=1, pat='d.finish()?;'):
     i = o.find(pat, start, nth)
     ind = o.indent_of(i)
     o.lines[i:i] = ghost('''
-proof { assert(oc == oe0 && nc == ne0); assert(seg(old, new, s, o0, n0, oe0, ne0)); }
+proof { assert(oc == oe0 && nc == ne0); assert(seg(old, new, s, o0, n0, oe0, ne0)); if d0.relies() { lemma_seg_any(rel, r1, s, o0, n0, oe0, ne0, rs0); } lemma_run_fin::<D>(r1, rs0, s); }
 ''', ind)
     return i + 2
 
